@@ -90,6 +90,8 @@ struct Dom
         return {"",
                 // crate mode with crate ids offset from creation ranks
                 "create_root(|z);remove_crate(0)",
+                // three roots and a sub-crate (enters two levels late): moves of first, middle and last siblings are one operation away
+                "@2:create_root(|p);create_root(|q);create_root(|r);create_sub(0|s)",
                 // entity mode: three tracks (first one removed again so that ids are offset), two crates
                 "create_track(0);remove_track(0);create_track(0);create_track(0);create_track(0);create_root(|x);create_root(|y);add_track(0,1);remove_track_from(0,1)"};
     }
